@@ -6,3 +6,4 @@ pub mod dateadd;
 pub mod tz;
 pub mod fmt;
 pub mod exact;
+pub mod relround;
